@@ -107,6 +107,9 @@ def worker(job):
         b = make_multi(it, b_types, bb, D, flags)
         sig = {t: x.shape[axis] for t, x in bb.items()}
         r = attempt(lambda: a.concat(b, axis=axis).concat_inverse(sig, axis=axis))
+        if not isinstance(r, Rejected):
+            multi_equal(a, ab, D, flags, "left operand after a.concat(b) (must be unchanged)", problems)
+            multi_equal(b, bb, D, flags, "right operand after a.concat(b) (must be unchanged)", problems)
         if isinstance(r, Rejected):
             problems.append(("rejected", "concat/concat_inverse rejected: %s" % r.exc, None))
         else:
